@@ -278,7 +278,9 @@ def run(spec, ctx):
                         kn = dns.name.from_text("key.example.")
                 else:
                     kn = dns.name.from_text("unrelated-key-name.invalid.")
-                alg = rng.choice((dns.tsig.HMAC_SHA256, dns.tsig.HMAC_SHA1, dns.tsig.HMAC_SHA512, dns.tsig.HMAC_SHA256_128, dns.tsig.HMAC_MD5))
+                # every algorithm: the TSIG reserve and the padding arithmetic use a per-algorithm MAC size estimate
+                alg = rng.choice((dns.tsig.HMAC_SHA256, dns.tsig.HMAC_SHA1, dns.tsig.HMAC_SHA512, dns.tsig.HMAC_SHA256_128, dns.tsig.HMAC_MD5, dns.tsig.HMAC_SHA224,
+                                  dns.tsig.HMAC_SHA384, dns.tsig.HMAC_SHA384_192, dns.tsig.HMAC_SHA512_256))
                 key = dns.tsig.Key(kn, bytes(rng.randrange(256) for _ in range(16)), alg)
                 m.use_tsig(key)
             info["flags0"] = int(m.flags)
